@@ -3,26 +3,28 @@
    operators.
    InitLattice: the whole option lattice: 3 tags (one glyf), selections all / only / skip, two glyphs
                 whose names differ in case only ("a", "A").
-   InitNames:   splitGlyphs dumps of every ordered pair of distinct glyph names of up to 3 symbols
-                over {a A _ * ?} (case variants, characters illegal in file names, names that
-                sanitise to the same string, names clipped to the same string: MaxLen is scaled
-                down to 9 with a 2 + 2 character prefix / suffix).
+   InitNames:   splitGlyphs dumps of every ordered pair of distinct glyph names of up to MaxNameLen
+                symbols over {a A _ * ?} (case variants, characters illegal in file names, names that
+                sanitise to the same string, names clipped to the same string: the file name limit
+                is scaled down to FMaxLen with a 2 + 2 character prefix / suffix).
+                MC_TTXDump.cfg: names of 1..2 symbols, limit 7 (900 pairs);
+                MC_TTXDump_thorough.cfg: names of 1..3 symbols, limit 9 (23870 pairs).
    The reference dumper names the per-glyph files with the user-name-to-file-name machine of
    Filenames.tla, handing it the lower-cased names given out so far, and writes them to a
    case-insensitive file system (last writer wins).  RefOK: its dumps satisfy WellFormed.
    MC_TTXDump_neg.cfg (Buggy = TRUE): the dumper records the names as written, not lower-cased;
    RefOK must then be VIOLATED - the predicate notices the overwritten per-glyph file.          *)
 EXTENDS TTXDump
-CONSTANT Buggy
+CONSTANTS Buggy, MaxNameLen, FMaxLen
 VARIABLES split, splitGlyphs, only, skip, present, gnames
-FN == INSTANCE Filenames WITH MaxLen <- 9, CounterWidth <- 2, CounterLimit <- 50
+FN == INSTANCE Filenames WITH MaxLen <- FMaxLen, CounterWidth <- 2, CounterLimit <- 50
 CX == [illegal |-> {42, 63}, reserved |-> {<<99, 111, 110>>}, lc |-> <<>>]
 Prefix == <<100, 46>>
 Suffix == <<46, 120>>
 All == <<"GlyphOrder", "head", "glyf">>
 Sub == {<<>>, <<"head">>, <<"glyf">>, <<"head", "glyf">>, <<"glyf", "head">>, <<"kern">>}
 Symbols == {97, 65, 95, 42, 63}
-GNames == UNION {[1..k -> Symbols] : k \in 1..3}
+GNames == UNION {[1..k -> Symbols] : k \in 1..MaxNameLen}
 InitLattice == split \in BOOLEAN /\ splitGlyphs \in BOOLEAN /\ only \in Sub /\ skip \in Sub
                /\ present \in {{"GlyphOrder", "head", "glyf"}, {"GlyphOrder", "head"}} /\ gnames = << <<97>>, <<65>> >>
 InitNames == /\ split = FALSE /\ splitGlyphs = TRUE /\ only = <<>> /\ skip = <<>> /\ present = {"GlyphOrder", "head", "glyf"}
